@@ -34,6 +34,10 @@ def groups(tier, seed):
             if a != b:
                 lists.append((a, b, a))
                 lists.append((a, b, b))
+    # date keys that some rows do not have (zip members carry no access / creation time): the rows that have one stay sorted
+    for key in ('accessed', 'created', 'modified'):
+        for desc in (False, True):
+            yield {'kind': 'arcdate', 'key': key, 'desc': desc, 'keys': [key], 'cases': []}
     for kl in lists:
         n = len(kl)
         if True:
@@ -55,10 +59,68 @@ def groups(tier, seed):
 
 
 def single(case):
+    if case.get('kind') == 'arcdate':
+        return {'kind': 'arcdate', 'key': case['key'], 'desc': case['desc'], 'keys': [case['key']], 'cases': [], 'only': case['variant']}
     return {'keys': case['keys'], 'cases': [{k: case[k] for k in ('dirs', 'spell', 'where', 'rd', 'tz') if k in case}]}
 
 
+def make_zip(names, when=(2020, 5, 17, 10, 20, 30)):
+    import io
+    import zipfile
+    buf = io.BytesIO()
+    with zipfile.ZipFile(buf, 'w') as z:
+        for i, n in enumerate(names):
+            z.writestr(zipfile.ZipInfo(n, date_time=when[:5] + (2 * i,)), 'x' * (i + 1))
+    return buf.getvalue()
+
+
+def eval_arcdate(env, group):
+    import os
+    root = env.newdir('c5a')
+    F, D = core.F, core.D
+    core.materialise(root, {'0.zip': F(data=make_zip(['m1.log', 'm2.log', 'm3.txt'])), 'z1.log': F(1), 'z2.log': F(2), 'z3.log': F(3),
+                            'z4.log': F(4), 'a0.log': F(5), 'sub': D({'0a.zip': F(data=make_zip(['n1.log'], (2021, 1, 2, 3, 4, 6))), 'y1.log': F(1), 'y2.log': F(2)})})
+    t0 = 1600000000
+    for i, n in enumerate(['z1.log', 'z2.log', 'z3.log', 'z4.log', 'a0.log', 'sub/y1.log', 'sub/y2.log', '0.zip', 'sub/0a.zip']):
+        os.utime(os.path.join(root, n), (t0 + (7 - i) * 86400 * (1 if i % 2 else 3), t0 + i * 3600))
+    outs = []
+    key, desc = group['key'], group['desc']
+    try:
+        for wi, w in enumerate(('', " where name like '%.log'", ' where size < 4')):
+            for mode in ('', ' dfs'):
+                for rd in ('sorted', 'rev'):
+                    variant = [wi, mode, rd]
+                    if group.get('only') is not None and group['only'] != variant:
+                        continue
+                    frm = ' from . archives' + mode + w
+                    q = 'path, %s%s order by %s%s into list' % (key, frm, key, ' desc' if desc else '')
+                    o = env.run([q], cwd=root, preload=True, env={'FSX_READDIR': rd})
+                    o0 = env.run(['path, %s%s into list' % (key, frm)], cwd=root, preload=True, env={'FSX_READDIR': rd})
+                    rows, rows0 = o.rows(2), o0.rows(2)
+                    res = {'case': {'kind': 'arcdate', 'key': key, 'desc': desc, 'variant': variant, 'query': q}, 'layer': 'archive-dates', 'nt': True,
+                           'trans': len(rows or []) + 1}
+                    if o.timeout or o.rc != 0 or o.err or rows is None or rows0 is None:
+                        res.update(status='viol', cls='status-or-shape', detail=dict(o.brief(), query=q), sig=('err',))
+                    elif sorted(p_ for p_, _ in rows) != sorted(p_ for p_, _ in rows0):     # access times may move between two runs
+                        res.update(status='viol', cls='not-a-permutation', sig=('perm',), detail={'query': q, 'n': len(rows), 'expected_n': len(rows0)})
+                    else:
+                        dated = [(p_, v) for p_, v in rows if v]
+                        bad = next((i for i in range(len(dated) - 1) if (dated[i][1] > dated[i + 1][1]) != desc and dated[i][1] != dated[i + 1][1]), None)
+                        if bad is not None:
+                            res.update(status='viol', cls='unsorted:' + key, sig=('unsorted', key),
+                                       detail={'query': q, 'pair': [list(dated[bad]), list(dated[bad + 1])], 'readdir': rd,
+                                               'rows_without_a_value': len(rows) - len(dated)})
+                        else:
+                            res.update(status='ok', sig=tuple(p_ for p_, _ in dated))
+                    outs.append(res)
+    finally:
+        env.rmtree(root)
+    return outs
+
+
 def eval_group(env, group, tier):
+    if group.get('kind') == 'arcdate':
+        return eval_arcdate(env, group)
     root = env.newdir('c5')
     core.materialise(root, om.ord_tree())
     keys = group['keys']
